@@ -111,14 +111,13 @@ def parseSection (r : Req) (sec : String) : Option Req :=
       let ws := ws.filter (· != "-")
       match ws.mapM ratOfString with
       | some widths =>
-        let base : Font := ⟨nm, first, widths, mw, desc, 1 / 1000, 1 / 1000, false, false, [], 880⟩
+        let base : Font := ⟨nm, first, widths, mw, desc, none, false, false, [], 880⟩
         if kind == "s" then some { r with fonts := r.fonts.push base }
         else if kind == "cidh" then some { r with fonts := r.fonts.push { base with multibyte := true } }
         else if kind.startsWith "t3:" then
           match parseMatrix ((kind.drop 3).toString.splitOn ",") with
           | some m =>
-            some { r with fonts := r.fonts.push { base with hscale := Gen.Interp.type3_hscale m,
-                                                            vscale := Gen.Interp.type3_vscale m } }
+            some { r with fonts := r.fonts.push { base with fm := some m } }
           | none => none
         else if kind.startsWith "cidv:" then
           match (kind.drop 5).toString.splitOn ":" with
